@@ -6,7 +6,7 @@ from .runner import Harness, Module
 from . import shapes as S
 
 FUNCTIONS = ['<T as ::core::ops::Deref>::deref (educe expansion, struct and enum)', '<T as ::core::ops::DerefMut>::deref_mut (educe expansion, struct and enum)']
-REFTY = {'val': 'u8', 'ref': "&'static u8", 'refref': "&'static &'static u8"}
+REFTY = {'val': 'u8', 'ref': "&'static u8", 'refref': "&'static &'static u8", 'mutref': "&'static mut u8"}
 OTHER = ['u16', 'u8', 'u32']
 
 
@@ -21,7 +21,7 @@ def build_variant(k, vk, n, dpos, mpos, dty, mark_single, with_mut):
                 a['Deref'] = {}
         if with_mut and i == mpos:
             if i != dpos:
-                ty = 'u8'
+                ty = 'u8' if (k + i + n) % 3 else REFTY['mutref']
             if n > 1 or mark_single:
                 a['DerefMut'] = {}
         f = F(ty, S.FNAMES[i] if vk == 'named' else None, **a)
@@ -38,7 +38,7 @@ def build(kind, vspecs, with_mut):
 
 
 def widen(f, e):
-    if f.ty == REFTY['ref']:
+    if f.ty in (REFTY['ref'], REFTY['mutref']):
         return f'(**{e}) as u32'
     if f.ty == REFTY['refref']:
         return f'(***{e}) as u32'
@@ -50,13 +50,14 @@ def oracle(t, with_mut):
     for v in t.variants:
         di = next(i for i, f in enumerate(v.fields) if 'd' in f.role)
         f = v.fields[di]
-        e = {'val': f'a{di} as *const u8', 'ref': f'*a{di} as *const u8', 'refref': f'**a{di} as *const u8'}[f.dty]
+        e = {'val': f'a{di} as *const u8', 'ref': f'*a{di} as *const u8', 'refref': f'**a{di} as *const u8', 'mutref': f'&**a{di} as *const u8'}[f.dty]
         d_arms += f'        {pattern(t, v, "a")} => {e},\n'
         snap = [widen(f, f'a{i}') for i, f in enumerate(v.fields)] + ['0'] * (3 - len(v.fields))
         s_arms += f'        {pattern(t, v, "a")} => [{", ".join(snap)}],\n'
         if with_mut:
             mi = next(i for i, f in enumerate(v.fields) if 'm' in f.role)
-            m_arms += f'        {pattern(t, v, "a")} => (a{mi} as *const u8, {mi}),\n'
+            mexp = f'&**a{mi} as *const u8' if v.fields[mi].ty == REFTY['mutref'] else f'a{mi} as *const u8'
+            m_arms += f'        {pattern(t, v, "a")} => ({mexp}, {mi}),\n'
     s = f'pub fn designated(x: &Ty) -> *const u8 {{\n    match x {{\n{d_arms}    }}\n}}\n'
     s += f'pub fn snap(x: &Ty) -> [u32; 3] {{\n    match x {{\n{s_arms}    }}\n}}\n'
     if with_mut:
@@ -118,10 +119,10 @@ def variant_specs(with_mut):
     for vk in ('named', 'tuple'):
         for n in (1, 2, 3):
             for dpos in range(n):
-                for dty in ('val', 'ref', 'refref'):
+                for dty in ('val', 'ref', 'refref', 'mutref'):
                     mposs = range(n) if with_mut else [0]
                     for mpos in mposs:
-                        if with_mut and mpos == dpos and dty != 'val':
+                        if with_mut and mpos == dpos and dty not in ('val', 'mutref'):
                             continue
                         for ms in ((False, True) if n == 1 else (False,)):
                             out.append((vk, n, dpos, mpos, dty, ms))
@@ -172,9 +173,9 @@ def gen(tier, seed):
 
 
 RULE = ('one config = struct or enum (1-3 variants) whose variants are drawn from {named, tuple} x 1..3 fields x every Deref marker position x every type-compatible DerefMut marker position '
-        'x designated field type {u8, &u8, &&u8} x single-field shortcut with/without marker; the value (variant, all fields) and the written byte are arbitrary. '
+        'x designated field type {u8, &u8, &&u8, &mut u8} x single-field shortcut with/without marker; the value (variant, all fields) and the written byte are arbitrary. '
         'Pointer identity is asserted, so a neighbour field of the same value cannot pass. Non-trivial = all harnesses passed with their reachability witness SATISFIED.')
-BOUNDS = dict(max_fields=3, max_variants=3, target='u8', outside=['&mut fields under DerefMut', 'generic targets', '>3 fields/variants'])
+BOUNDS = dict(max_fields=3, max_variants=3, target='u8', outside=['generic targets', '>3 fields/variants'])
 ASSUME = ['Kani 0.68 / CBMC 6.11 / CaDiCaL; rustc nightly-2026-08-21 x86_64 dev profile', 'reference-typed fields point into 4-element statics',
           'oracle (designated field address, snapshot of all fields) written from the config by vk/p_c09.py']
 
